@@ -480,4 +480,70 @@ theorem day_inputs_skeleton (d : RQ.Lemmas.WorldF.Day) (hc : d.CallsOnly) :
   have hb := hcalls d.barCalls (fun i hi => hc i (by simp [hi]))
   simp [RQ.Lemmas.WorldF.Day.inputs, List.filterMap_append, ha, hb, skelOfIn]
 
+/-! ### the calendar the event source walks through: several registered calendars, every trading day once -/
+
+theorem mem_insertSorted (x d : Nat) (l : List Nat) : d ∈ insertSorted x l ↔ d = x ∨ d ∈ l := by
+  induction l with
+  | nil => simp [insertSorted]
+  | cons y ys ih =>
+    unfold insertSorted
+    split
+    · simp
+    · split
+      · rename_i h1 h2; subst h2; simp
+      · simp only [List.mem_cons, ih]
+        constructor
+        · rintro (h | h | h)
+          · exact Or.inr (Or.inl h)
+          · exact Or.inl h
+          · exact Or.inr (Or.inr h)
+        · rintro (h | h | h)
+          · exact Or.inr (Or.inl h)
+          · exact Or.inl h
+          · exact Or.inr (Or.inr h)
+
+theorem insertSorted_sorted (x : Nat) (l : List Nat) (h : l.Pairwise (· < ·)) : (insertSorted x l).Pairwise (· < ·) := by
+  induction l with
+  | nil => simp [insertSorted]
+  | cons y ys ih =>
+    unfold insertSorted
+    rw [List.pairwise_cons] at h
+    split
+    · rename_i hxy
+      refine List.pairwise_cons.mpr ⟨?_, List.pairwise_cons.mpr h⟩
+      intro a ha
+      rcases List.mem_cons.mp ha with rfl | ha
+      · exact hxy
+      · exact Nat.lt_trans hxy (h.1 a ha)
+    · split
+      · exact List.pairwise_cons.mpr h
+      · rename_i h1 h2
+        refine List.pairwise_cons.mpr ⟨?_, ih h.2⟩
+        intro a ha
+        rcases (mem_insertSorted x a ys).mp ha with rfl | ha
+        · omega
+        · exact h.1 a ha
+
+/-- the merged calendar is strictly increasing: no trading day occurs twice, however many calendars list it — the executor sees every day once -/
+theorem merged_calendar_strictly_increasing (cs : List (List Nat)) : (mergeCals cs).Pairwise (· < ·) := by
+  unfold mergeCals
+  induction cs.flatten with
+  | nil => simp
+  | cons x xs ih => exact insertSorted_sorted x _ ih
+
+/-- ... and it holds exactly the days of the registered calendars -/
+theorem merged_calendar_is_the_union (cs : List (List Nat)) (d : Nat) : d ∈ mergeCals cs ↔ ∃ c ∈ cs, d ∈ c := by
+  unfold mergeCals
+  have : ∀ l : List Nat, d ∈ l.foldr insertSorted [] ↔ d ∈ l := by
+    intro l
+    induction l with
+    | nil => simp
+    | cons x xs ih => simp [List.foldr, mem_insertSorted, ih]
+  rw [this, List.mem_flatten]
+
+theorem merged_calendar_nodup (cs : List (List Nat)) : (mergeCals cs).Nodup :=
+  (merged_calendar_strictly_increasing cs).imp (fun h => Nat.ne_of_lt h)
+
+example : mergeCals [[1, 2, 5], [2, 3, 5, 8]] = [1, 2, 3, 5, 8] := by decide
+
 end RQ.Props.C08
